@@ -100,15 +100,13 @@ class StreamModel(Model):
         return NoneV()
 
     def c_fill_buf(self, eng, st, args, node):
+        # contract of _fill_buf (proved below): position unchanged; the buffer satisfies the invariant for the current aligned
+        # block and is present whenever the position lies inside the stream
         pos, pa = st.attrs["self._pos"].e, st.attrs["self._pos_align"].e
-        isn, b = eng.opt_parts(st.attrs["self._buf"])
-        b = b if b is not None else EMPTY_
-        keep = z3.Or(z3.And(z3.Not(isn), b.n > 0), self.size <= pos, self.size <= pa)
+        nb_none = fresh("buf_isnone", B)
         nb = fresh_bytes("filled")
-        lim = self.size - pa
-        st.hyps.append(z3.Implies(z3.Not(keep), z3.And(nb.n >= 0, z3.Implies(pa + self.align <= self.size, nb.n == self.align), z3.Implies(pa + self.align > self.size, nb.n >= lim),
-                                                         forall_k(zmin(nb.n, lim), lambda k: nb.at(k) == self.A(pa + k)))))
-        st.attrs["self._buf"] = OptV(z3.If(keep, isn, z3.BoolVal(False)), BytesV(z3.If(keep, b.n, nb.n), lambda i, b=b, nb=nb, keep=keep: z3.If(keep, b.at(i), nb.at(i))))
+        st.hyps.append(z3.And(nb.n >= 0, self.buf_ok(nb_none, nb, pa), z3.Implies(z3.And(pos < self.size, pa < self.size), z3.Not(nb_none))))
+        st.attrs["self._buf"] = OptV(nb_none, nb)
         return NoneV()
 
     def c_seek_calc(self, eng, st, args, node):
@@ -156,6 +154,9 @@ def _pre(m, eng_like=None):
 def _contract(qual, params_of, post, raises=None, loops=None, extra_req=None, note=""):
     def requires(m):
         # INV on the entry state (Euclid witness for pos % align supplied as constants)
+        from pyvc.engine import EUCLID
+
+        EUCLID.append((m.pos, m.align, m.qa, m.ra))  # the invariant's pos % align witnesses take part in the uniqueness lemma instances
         st_like = [m.align > 0, m.size >= 0, m.pos >= 0, m.pos == m.qa * m.align + m.ra, 0 <= m.ra, m.ra < m.align, m.pa == m.pos - m.ra,
                    m.buf_ok(m.buf_none, m.buf, m.pa), m.buf.n >= 0]
         return st_like + (extra_req(m) if extra_req else [])
